@@ -9,11 +9,11 @@ From Coq Require Import ZArith ZifyBool ZifyN.
 Lemma batch_backend c s t es : batch c Fd s t es = batch c Mmap s t es.
 Proof.
   unfold batch, appendable.
-  destruct (c_max_alloc c <? _); [reflexivity|].
-  destruct (name_ok c t) eqn:Hn; cbn [negb]; [|reflexivity].
   destruct (ensure_writer c s t) as [s1 w].
   destruct (c_max_entries c <? N.of_nat (length es)); [reflexivity|].
   destruct (c_max_bytes c <? sum_need c es); [reflexivity|].
+  destruct (c_max_alloc c <? _); [reflexivity|].
+  destruct (name_ok c t) eqn:Hn; cbn [negb]; [|reflexivity].
   destruct es as [|e es']; [reflexivity|].
   destruct (ts_poisoned _); [reflexivity|].
   destruct (batch_plan c s1 t w false (e :: es')) as [[[s2 wfin] okp] rot].
